@@ -539,6 +539,12 @@ class C06(Check):
             cut.append(k)
             trimmed.append(list(c) if k is None else list(c[:k]))
         obs, crashes = super().run_impl(trimmed, tag)
+        # sanitizer reports the shared classifier does not name: reads of the poisoned guard areas
+        # next to foreign memory, and a negative length handed to memcpy
+        for i, (kind, err) in crashes.items():
+            better = ('oob' if 'use-after-poison' in err else 'negative-size' if 'negative-size-param' in err else None)
+            if better and obs[i] and obs[i][-1].startswith('! exit'):
+                obs[i][-1] = '! ' + better
         for i, k in enumerate(cut):
             if k is not None and obs[i] and obs[i][-1].startswith('end'):
                 obs[i] = obs[i][:-1] + ['! not-accepted', obs[i][-1]]
